@@ -180,3 +180,35 @@ def c13_point_count(inp, obligation):
     got = (f.get_f_dict_size(), op.get_distinct_points(combi.scheme), combi.get_total_num_points(distinct_function_evals=True))
     bad = [] if all(int(g) == want for g in got) else ["%d distinct points evaluated; get_f_dict_size / get_distinct_points / get_total_num_points report %r" % (want, got)]
     return bool(bad), {"violations": bad}
+
+
+@handler("C13.refused_request")
+def c13_refused_request(inp, obligation):
+    """a run, then requests the driver refuses (non-scalar levels): the history arrays of the run must be what they were, and a continuation returns one entry per
+    evaluation of the whole run"""
+    import numpy as np
+    from bounded import _drivers_common as dc
+    bad = []
+    for st in ("dimwise", "extend"):
+        cfg = {"strategy": st, "a": [0.0, 0.0], "b": [1.0, 1.0], "norm": "inf", "opts": {} if st == "dimwise" else {"version": 0, "number_of_refinements_before_extend": 2},
+               "grid": {"type": "GlobalTrapezoidal" if st == "dimwise" else "Trapezoidal", "boundary": True}}
+        s, eo, f = dc.build(cfg, [["corner", [1.0, 3.0]]], [0.1])
+        r1 = dc.run_adaptive(s, eo, 1, 2, -1.0, 40, 1)
+        before = (list(s.error_array), list(s.num_point_array), list(s.surplus_error_array))
+        refused = False
+        try:
+            with dc.quiet():
+                s.performSpatiallyAdaptiv([1, 1], [2, 2], eo, -1.0, max_evaluations=40, print_output=False)
+        except AssertionError:
+            refused = True
+        if not refused:
+            continue
+        after = (list(s.error_array), list(s.num_point_array), list(s.surplus_error_array))
+        if after != before:
+            bad.append("%s: refused performSpatiallyAdaptiv([1,1],[2,2]) changed the history arrays of the run: %d/%d/%d entries before, %d/%d/%d after"
+                       % ((st,) + tuple(len(x) for x in before) + tuple(len(x) for x in after)))
+            continue
+        r2 = dc.continue_adaptive(s, -1.0, 90, 1)
+        if list(r2[6][:len(r1[6])]) != list(r1[6]):
+            bad.append("%s: continuation after a refused request lost the first stop's entries: %s vs %s" % (st, list(r1[6]), list(r2[6])))
+    return bool(bad), {"violations": bad[:3]}
